@@ -825,7 +825,7 @@ class Gen:
         pre_block = []
         nitems = r.choice([0, 1, 1, 2, 2, 3, 3, 4, 5, 6])
         for _ in range(nitems):
-            item = r.choice(['stage', 'stage', 'stage', 'stage', 'loop', 'loop', 'nested'])
+            item = r.choice(['stage'] * 8 + ['loop'] * 4 + ['nested'])
             if item == 'stage':
                 if r.random() < 0.8 or self.cur is None:
                     self.set_colour(out=body)
@@ -1057,7 +1057,7 @@ def classify(desc, real, spec_ids, expected, tx):
             bad = [k for k in range(len(g[3])) if g[3][k] != wnt[3][k]]
             k = bad[0]
             where = 'row %d column %d' % (k // wnt[2], k % wnt[2])
-            if g[3] == alt:
+            if all(g[3][j] == alt[j] for j in bad):
                 return ('C15/cell-rounded-before-conversion',
                         'light %s %s: the cell carries %r, a plain set of the same registers (%s %r) transmits %r: '
                         'the colour is clamped and rounded before it is converted'
